@@ -5,6 +5,7 @@ import (
 	"math"
 	"strings"
 	"testing"
+	"time"
 	"unicode"
 
 	"github.com/Vedant9500/WTF/internal/database"
@@ -151,6 +152,21 @@ func TestC05_Cache(t *testing.T) {
 		} else {
 			cdb = database.NewCachedDatabase(gen.Load(t, cmds))
 		}
+		// a third of the cases: a result cache of 1-8 entries whose entries live 0 (for ever), 3 ms, 20 ms
+		// or the usual 5 minutes (verif-tag hook; the defaults 1000 / 5 min are out of reach), so that
+		// eviction and expiry happen inside the caching layer, between the searches of one history
+		smallCache, cacheTTL, cacheCap := false, 5*time.Minute, 0
+		if rapid.IntRange(0, 2).Draw(t, "small-cache") == 0 {
+			smallCache = true
+			cacheCap = rapid.SampledFrom([]int{1, 2, 3, 5, 8}).Draw(t, "capacity")
+			cacheTTL = rapid.SampledFrom([]time.Duration{0, 3 * time.Millisecond, 20 * time.Millisecond, 5 * time.Minute}).Draw(t, "lifetime")
+			database.VerifSetCacheParams(cdb, cacheCap, cacheTTL)
+			if c := cdb.GetCacheStats()["search"].Capacity; c != cacheCap {
+				t.Fatalf("result cache capacity %d after asking for %d", c, cacheCap)
+			}
+		}
+		shortLife := smallCache && cacheTTL > 0 && cacheTTL < time.Second
+		slept, evictedSeen, sweptSeen := false, false, false
 		toks := gen.Tokens(cmds)
 		if len(toks) < 2 {
 			toks = append(toks, "find", "files")
@@ -337,11 +353,21 @@ func TestC05_Cache(t *testing.T) {
 				steps = append(steps, fmt.Sprintf("enable(%v)", enabled))
 			},
 			"cleanup": func(t *rapid.T) {
+				sizeBefore := cdb.GetCacheStats()["search"].Size
 				n := cdb.CleanupExpiredCache()["search"]
-				if n != 0 {
-					t.Fatalf("expiry sweep removed %d entries although nothing can be older than the 5-minute lifetime; steps=%v", n, steps)
+				if n != 0 && !shortLife {
+					t.Fatalf("expiry sweep removed %d entries although nothing can be older than the lifetime %v; steps=%v", n, cacheTTL, steps)
 				}
-				steps = append(steps, "cleanup")
+				if n < 0 || n > sizeBefore {
+					t.Fatalf("expiry sweep reports %d removed entries, the cache held %d; steps=%v", n, sizeBefore, steps)
+				}
+				if after := cdb.GetCacheStats()["search"].Size; enabled && after != sizeBefore-n {
+					t.Fatalf("expiry sweep reports %d removed entries, size went %d -> %d; steps=%v", n, sizeBefore, after, steps)
+				}
+				if n > 0 {
+					sweptSeen = true
+				}
+				steps = append(steps, fmt.Sprintf("cleanup=%d", n))
 			},
 			"update": func(t *rapid.T) {
 				cmds = c05DB(t, "cmds2")
@@ -365,14 +391,29 @@ func TestC05_Cache(t *testing.T) {
 				updated = true
 				steps = append(steps, fmt.Sprintf("update(%d commands)", len(cmds)))
 			},
+			"sleep": func(t *rapid.T) {
+				d := time.Duration(rapid.IntRange(1, 26).Draw(t, "ms")) * time.Millisecond
+				time.Sleep(d)
+				slept = true
+				steps = append(steps, fmt.Sprintf("sleep(%v)", d))
+			},
 			"": func(t *rapid.T) {
 				s := cdb.GetCacheStats()["search"]
 				if s.Size > s.Capacity || s.Size < 0 {
 					t.Fatalf("cache size %d outside [0,%d]", s.Size, s.Capacity)
 				}
+				if smallCache && s.Capacity != cacheCap {
+					t.Fatalf("cache capacity changed from %d to %d; steps=%v", cacheCap, s.Capacity, steps)
+				}
+				if s.Evictions > 0 {
+					evictedSeen = true
+				}
 			},
 		}
 		rare := []string{"invalidate", "enable", "enable", "cleanup", "cleanup", "update", "mutate", "mutate", "mutate"}
+		if shortLife {
+			rare = append(rare, "sleep", "sleep", "sleep", "sleep", "cleanup")
+		}
 		t.Repeat(map[string]func(*rapid.T){
 			"":        acts[""],
 			"search":  acts["search"],
@@ -399,6 +440,18 @@ func TestC05_Cache(t *testing.T) {
 		}
 		if mutatedRepeat {
 			labels = append(labels, "repeat-after-in-place-change")
+		}
+		if smallCache {
+			labels = append(labels, "small-cache")
+		}
+		if evictedSeen {
+			labels = append(labels, "evicted-inside-layer")
+		}
+		if slept && hits > 0 {
+			labels = append(labels, "short-lifetime-with-hit")
+		}
+		if sweptSeen {
+			labels = append(labels, "sweep-removed-expired")
 		}
 		if len(steps) > 40 {
 			steps = append(steps[:40], fmt.Sprintf("... %d more", len(steps)-40))
